@@ -1,13 +1,15 @@
 #!/bin/sh
-# tools/try_mutant.sh <patch.diff> <Cnn> [quick|thorough] : apply a seeded change to /repo, run the check, revert.
+# tools/try_mutant.sh <patch.diff> <Cnn> [quick|thorough]
+# Applies a seeded change to a scratch worktree of /repo's HEAD (outside /repo and /verif), points the check at it through
+# VERIF_REPO, and removes the worktree again.  /repo itself is not touched, so this can run next to other checks.
 P="$1"; ID="$2"; TIER="${3:-quick}"
-cd /repo || exit 2
-if [ -n "$(git status --porcelain)" ]; then echo "/repo is dirty"; exit 2; fi
-cleanup() { git -C /repo reset -q --hard HEAD; rm -f /repo/*.rej /repo/*.orig; }
+WT=$(mktemp -d /tmp/mut.XXXXXX)
+cleanup() { git -C /repo worktree remove --force "$WT" >/dev/null 2>&1; rm -rf "$WT"; }
 trap cleanup EXIT INT TERM
+git -C /repo worktree add -q --detach "$WT" HEAD || exit 2
+cd "$WT" || exit 2
 if ! git apply "$P" 2>/dev/null; then
   git apply -3 "$P" >/dev/null 2>&1
   if [ -n "$(git diff --name-only --diff-filter=U)" ] || [ -z "$(git status --porcelain)" ]; then echo "PATCH DOES NOT APPLY"; exit 3; fi
-  git reset -q
 fi
-cd /verif && ./check "$ID" "$TIER" 2>&1 | grep -E "VIOLATION|KNOWN|signature|what:|^\[C|HARNESS" | head -12
+cd /verif && VERIF_REPO="$WT" VERIF_OUT="$WT/.verif-out" ./check "$ID" "$TIER" 2>&1 | grep -E "VIOLATION|KNOWN|signature|what:|^\[C|HARNESS" | head -12
